@@ -792,6 +792,8 @@ def iter_next(interp, it):
                 raise Inconclusive("skip_while predicate returned %r" % (drop_,), interp.where())
             if not drop_:
                 return x, IterV("skip_while", inner, it.b, 1)
+    if k == "repeat":
+        return some(it.a), it
     if k == "zip":
         x, a = iter_next(interp, it.a)
         if not is_some(x):
@@ -1352,6 +1354,10 @@ def default_of_type(interp, tix, depth=0):
             return StrV("")
         if n == "std::option::Option":
             return NONE
+    if k == "adt" and prog.adts.get(t.get("adt"), {}).get("local"):
+        km = prog.impl_method("std::default::Default", t["adt"], "default")
+        if km:
+            return interp.call_key(km, [])
     raise Inconclusive("Default::default() of %s" % prog.ty_str(tix), interp.where())
 
 
@@ -1368,6 +1374,11 @@ def m_default(interp, args, info):
     if "Option<T>" in d:
         return NONE
     if targs:
+        t = interp.prog.types[targs[0]]
+        if t.get("k") == "adt" and interp.prog.adts.get(t.get("adt"), {}).get("local"):
+            k = interp.prog.impl_method("std::default::Default", t["adt"], "default")
+            if k:
+                return interp.call_key(k, [])
         return default_of_type(interp, targs[0])
     raise Inconclusive("Default::default() of an unknown type", interp.where())
 
@@ -2246,5 +2257,20 @@ def m_slice_windows(interp, args, info):
     v = interp.read(c, path)
     out = []
     for i in range(0, max(0, n - k + 1)):
-        out.append(Ptr(Cell(ListV(tuple(Ptr(c, path + (("i", i + j),)) for j in range(k))))))
+        out.append(Ptr(Cell(ListV(tuple(v.items[i:i + k])))))            # a read-only view of k consecutive elements
     return IterV("vec", ListV(out))
+
+
+@model("std::iter::repeat")
+def m_iter_repeat(interp, args, info):
+    return IterV("repeat", args[0])
+
+
+@model("std::ops::RangeInclusive::<Idx>::new")
+def m_range_inclusive_new(interp, args, info):
+    return Adt("std::ops::RangeInclusive", 0, (args[0], args[1], False))
+
+
+@model("std::array::<impl std::ops::Index<I> for [T; N]>::index", "core::array::<impl std::ops::Index<I> for [T; N]>::index")
+def m_array_index(interp, args, info):
+    return m_vec_index(interp, args, info)
